@@ -78,8 +78,8 @@ Section Tree.
               rewrite EL, <- EF. destruct out; lia.
         - reflexivity.
         - cbn [bt_root]. rewrite <- EF. exact EI. }
-      destruct (Nat.leb_spec (max_items t) (length (n_its r))) as [Full|NotFull].
-      + assert (Elen : length (n_its r) = max_items t) by lia.
+      destruct (Nat.leb_spec (bt_degree t * 2 - 1) (length (n_its r))) as [Full|NotFull].
+      + assert (Elen : (length (n_its r) = bt_degree t * 2 - 1)%nat) by lia.
         destruct (node_split_spec _ _ LO HI h r B Elen) as (m & l & r2 & ES & EF & Bl & Br & Ll & Lr).
         rewrite (half_hi _ _ LO HI). rewrite ES.
         assert (EIDX : init_size [l; r2] = idx_of (map fsize [l; r2])).
@@ -124,6 +124,7 @@ Section Tree.
         destruct (remove_spec ltb lt_irrefl lt_trans lt_negtrans _ _ LO HI h typ r (2 * S (height r)) B Hs) as (n' & out & E & B' & RS & LEN);
           [rewrite (height_binv _ _ _ _ B); lia|exact NE|].
         rewrite E.
+        rewrite EI in LEN. cbn [length] in LEN, Hlen.
         pose proof (rem_sorted ltb _ _ _ _ RS Hs) as Hs'.
         pose proof (rem_length ltb _ _ LO HI _ _ _ _ RS) as HL.
         pose proof (rem_spec_l0 _ _ _ _ RS) as EQ.
@@ -167,7 +168,7 @@ Section Tree.
 
     Lemma q_get x : match bt_root t with Some r => get ltb (S (height r)) r x | None => None end = l0_get ltb x (tabs t).
     Proof.
-      unfold tabs. destruct (bt_root t) as [r|] eqn:ER; [|reflexivity]. destruct (q_root r eq_refl) as (h & B & Hs & Hf & _).
+      unfold tabs. destruct (bt_root t) as [r|] eqn:ER; [|reflexivity]. destruct (q_root r ER) as (h & B & Hs & Hf & _).
       apply (get_spec ltb lt_irrefl lt_trans lt_negtrans _ _ x h r _ B Hs Hf).
     Qed.
 
@@ -175,14 +176,14 @@ Section Tree.
       match bt_root t with Some r => get_with_index ltb (S (height r)) r x | None => (None, 0%Z) end =
       (l0_get ltb x (tabs t), Z.of_nat (l0_rank ltb x (tabs t))).
     Proof.
-      unfold tabs. destruct (bt_root t) as [r|] eqn:ER; [|reflexivity]. destruct (q_root r eq_refl) as (h & B & Hs & Hf & _).
+      unfold tabs. destruct (bt_root t) as [r|] eqn:ER; [|reflexivity]. destruct (q_root r ER) as (h & B & Hs & Hf & _).
       apply (get_with_index_spec ltb lt_irrefl lt_trans lt_negtrans _ _ x h r _ B Hs Hf).
     Qed.
 
     Lemma q_get_at k : match bt_root t with Some r => get_at (S (height r)) r k | None => None end = l0_get_at k (tabs t).
     Proof.
       unfold tabs, l0_get_at. destruct (bt_root t) as [r|] eqn:ER.
-      - destruct (q_root r eq_refl) as (h & B & Hs & Hf & _). destruct (Z.ltb_spec k 0) as [Neg|Pos].
+      - destruct (q_root r ER) as (h & B & Hs & Hf & _). destruct (Z.ltb_spec k 0) as [Neg|Pos].
         + cbn [get_at]. replace (k <? 0)%Z with true by (symmetry; apply Z.ltb_lt; exact Neg). rewrite orb_true_r. reflexivity.
         + apply (get_at_spec _ _ h r _ k B Hf Pos).
       - destruct (k <? 0)%Z; [reflexivity|]. destruct (Z.to_nat k); reflexivity.
@@ -190,27 +191,104 @@ Section Tree.
 
     Lemma q_min : match bt_root t with Some r => node_min (S (height r)) r | None => None end = hd_error (tabs t).
     Proof.
-      unfold tabs. destruct (bt_root t) as [r|] eqn:ER; [|reflexivity]. destruct (q_root r eq_refl) as (h & B & Hs & Hf & LO).
+      unfold tabs. destruct (bt_root t) as [r|] eqn:ER; [|reflexivity]. destruct (q_root r ER) as (h & B & Hs & Hf & LO).
       apply (node_min_spec _ _ LO h r _ B Hf).
     Qed.
 
     Lemma q_max : match bt_root t with Some r => node_max (S (height r)) r | None => None end = hd_error (rev (tabs t)).
     Proof.
-      unfold tabs. destruct (bt_root t) as [r|] eqn:ER; [|reflexivity]. destruct (q_root r eq_refl) as (h & B & Hs & Hf & LO).
+      unfold tabs. destruct (bt_root t) as [r|] eqn:ER; [|reflexivity]. destruct (q_root r ER) as (h & B & Hs & Hf & LO).
       rewrite (node_max_spec _ _ LO h r _ B Hf). unfold last_opt. destruct (rev (flatten r)); reflexivity.
     Qed.
 
     Lemma q_ascend x : match bt_root t with Some r => ascend_from ltb (S (height r)) r (Some x) | None => [] end = l0_ascend_ge ltb x (tabs t).
     Proof.
-      unfold tabs. destruct (bt_root t) as [r|] eqn:ER; [|reflexivity]. destruct (q_root r eq_refl) as (h & B & Hs & Hf & LO).
+      unfold tabs. destruct (bt_root t) as [r|] eqn:ER; [|reflexivity]. destruct (q_root r ER) as (h & B & Hs & Hf & LO).
       apply (ascend_spec ltb lt_irrefl lt_trans lt_negtrans _ _ LO x h r _ B Hs Hf).
     Qed.
 
     Lemma q_descend x :
       match bt_root t with Some r => fst (descend_from ltb (S (height r)) r x false) | None => [] end = l0_descend_le ltb x (tabs t).
     Proof.
-      unfold tabs. destruct (bt_root t) as [r|] eqn:ER; [|reflexivity]. destruct (q_root r eq_refl) as (h & B & Hs & Hf & LO).
+      unfold tabs. destruct (bt_root t) as [r|] eqn:ER; [|reflexivity]. destruct (q_root r ER) as (h & B & Hs & Hf & LO).
       apply (descend_le_spec ltb lt_irrefl lt_trans lt_negtrans _ _ LO x h r _ B Hs Hf).
     Qed.
   End Queries.
 End Tree.
+
+(* ---------------------------------------------------------------------------------------- *)
+(* pkg/btree on Int items: the operation lists the driver runs (bt2_step / bt2_run of model/C07_BTree.v) against
+   the L0 runs (bt_step / bt_run of model/C07_BTreeSpec.v) *)
+Local Open Scope Z_scope.
+
+Lemma zlt_irrefl a : Z.ltb a a = false.
+Proof. apply Z.ltb_irrefl. Qed.
+Lemma zlt_trans a b c : Z.ltb a b = true -> Z.ltb b c = true -> Z.ltb a c = true.
+Proof. rewrite !Z.ltb_lt. lia. Qed.
+Lemma zlt_negtrans a b c : Z.ltb a b = false -> Z.ltb b c = false -> Z.ltb a c = false.
+Proof. rewrite !Z.ltb_ge. lia. Qed.
+
+Lemma seq_nth_map {X} (d : X) (l : list X) : forall pre,
+  map (fun k => match nth_error (pre ++ l) k with Some x => x | None => d end) (seq (length pre) (length l)) = l.
+Proof.
+  induction l as [|a l IH]; intros pre; [reflexivity|]. cbn [length seq map].
+  rewrite nth_error_app2 by lia. rewrite Nat.sub_diag. cbn [nth_error]. f_equal.
+  specialize (IH (pre ++ [a])). rewrite <- app_assoc in IH. cbn [app] in IH. rewrite app_length in IH. cbn [length] in IH.
+  rewrite Nat.add_1_r in IH. exact IH.
+Qed.
+
+Theorem bt2_step_refines (t : zt) (o : bop) : tinv Z.ltb t ->
+  exists t' b, bt2_step t o = Some (t', b) /\ bt_step (tabs t) o = (tabs t', b) /\ tinv Z.ltb t' /\ bt_degree t' = bt_degree t.
+Proof.
+  intros T.
+  pose proof (replace_or_insert_spec Z.ltb zlt_irrefl zlt_trans zlt_negtrans t) as INS.
+  pose proof (delete_item_spec Z.ltb zlt_irrefl zlt_trans zlt_negtrans t) as DEL.
+  destruct o as [x|x| | |x|x|k|x lim|x lim| | | |]; cbn [bt2_step bt_step]; unfold with_root; cbv beta.
+  - destruct (INS x T) as (t' & out & E & T' & ED & EL). rewrite E, EL. eauto 10.
+  - destruct (DEL (RemoveItem x) T) as (t' & out & E & T' & ED & EL). cbn [l0_rem] in EL. rewrite E, EL. eauto 10.
+  - destruct (DEL RemoveMin T) as (t' & out & E & T' & ED & EL). cbn [l0_rem] in EL. rewrite E, EL. eauto 10.
+  - destruct (DEL RemoveMax T) as (t' & out & E & T' & ED & EL). cbn [l0_rem] in EL. rewrite E, EL. eauto 10.
+  - rewrite (q_get Z.ltb zlt_irrefl zlt_trans zlt_negtrans t T x). eauto 10.
+  - rewrite (q_get_with_index Z.ltb zlt_irrefl zlt_trans zlt_negtrans t T x). unfold l0_get_with_index. eauto 10.
+  - rewrite (q_get_at Z.ltb t T k). eauto 10.
+  - rewrite (q_ascend Z.ltb zlt_irrefl zlt_trans zlt_negtrans t T x). eauto 10.
+  - rewrite (q_descend Z.ltb zlt_irrefl zlt_trans zlt_negtrans t T x). eauto 10.
+  - rewrite (tinv_length Z.ltb t T). eauto 10.
+  - rewrite (q_min Z.ltb t T). eauto 10.
+  - rewrite (q_max Z.ltb t T). eauto 10.
+  - exists t. eexists. split; [reflexivity|]. split; [|split; [exact T|reflexivity]]. f_equal.
+    rewrite (tinv_length Z.ltb t T), Nat2Z.id.
+    assert (E1 : map (fun k : nat => match match bt_root t with
+                                           | Some r => get_at (S (height r)) r (Z.of_nat k)
+                                           | None => None end with Some x => x | None => -999999 end) (seq 0 (length (tabs t))) = tabs t).
+    { etransitivity; [|exact (seq_nth_map (-999999) (tabs t) [])]. cbn [app length]. apply map_ext. intros k.
+      rewrite (q_get_at Z.ltb t T (Z.of_nat k)). unfold l0_get_at.
+      replace (Z.of_nat k <? 0) with false by (symmetry; apply Z.ltb_ge; lia). rewrite Nat2Z.id. reflexivity. }
+    rewrite E1. f_equal. apply map_ext. intros x.
+    rewrite (q_get_with_index Z.ltb zlt_irrefl zlt_trans zlt_negtrans t T x). reflexivity.
+Qed.
+
+(* what a run reports about the tree after each operation: the root satisfies the representation invariant *)
+Definition shape_ok (d : nat) (r : option (bobs * option (node Z))) : Prop :=
+  match r with
+  | Some (_, Some root) => exists len, root_inv Z.ltb (d - 1) (d * 2 - 1) len root
+  | Some (_, None) => True
+  | None => False          (* the transcription never reaches a point where the Go code would panic *)
+  end.
+
+Theorem bt2_run_refines ops : forall (t : zt), tinv Z.ltb t ->
+  map (option_map fst) (bt2_run t ops) = map Some (bt_run (tabs t) ops) /\
+  Forall (shape_ok (bt_degree t)) (bt2_run t ops).
+Proof.
+  induction ops as [|o ops IH]; intros t T; [split; [reflexivity|constructor]|].
+  destruct (bt2_step_refines t o T) as (t' & b & E & EL & T' & ED).
+  cbn [bt2_run bt_run]. rewrite E, EL. destruct (IH t' T') as [IH1 IH2]. rewrite ED in IH2. split.
+  - cbn [map option_map fst]. f_equal. exact IH1.
+  - constructor; [|exact IH2]. unfold shape_ok. destruct T' as [_ R]. destruct (bt_root t') as [r|]; [|exact I].
+    exists (bt_length t'). unfold min_items, max_items in R. rewrite ED in R. exact R.
+Qed.
+
+Corollary btree_refines_spec d ops : (2 <= d)%nat ->
+  map (option_map fst) (bt2_run (bt_new d) ops) = map Some (bt_run [] ops) /\
+  Forall (shape_ok d) (bt2_run (bt_new d) ops).
+Proof. intros D. apply (bt2_run_refines ops (bt_new d)). apply tinv_new, D. Qed.
